@@ -34,7 +34,20 @@ def run_graphs(prop, tier, factory, cfgs, keep, *, single_outcome_ok=(), assumpt
     jobs = [(factory, c, sorted(keep) if keep is not None else None, validate_every, max_states, inner)
             for c in cfgs]
     # biggest graphs first for better packing
-    results = pmap(_run_one, jobs, procs=min(NCPU, len(jobs)))
+    from .common import fork_map
+
+    def died(job, status):
+        # the code under test killed the interpreter (e.g. SIGBUS / SIGSEGV from a stale memory map) while this graph was
+        # explored: that is a violation of any property; the graph is reported with no coverage
+        import signal as _sg
+        name = _sg.Signals(status & 0x7f).name if (status & 0x7f) else f'status {status}'
+        return {'cfg': job[1], 'summary': {'states': 0, 'transitions': 0, 'pruned_transitions': 0, 'validated': 0, 'bound_hits': 0,
+                                           'max_depth': 0, 'outcomes': {}, 'closed': False},
+                'violations': [({'oracle': '*', 'op': 'explore', 'symptom': f'interpreter killed ({name})'},
+                                f'the interpreter was killed by {name} while the state graph of {_short(job[1])} was explored',
+                                {'config': job[1], 'history': []})],
+                'samples': [], 'cap_hit': None}
+    results = fork_map(_run_one, jobs, procs=min(NCPU, len(jobs)), on_death=died)
     tot = collections.Counter()
     outcomes = collections.defaultdict(collections.Counter)
     samples = []
